@@ -143,6 +143,10 @@ def tasks(tier):
         for content in (b["contents"] if call.startswith("read") else ["clean"]):
             for fk in b["fault_kinds"]:
                 out.append({"name": "%s/%s/%s" % (call, content, fk), "params": {"call": call, "content": content, "fault_kind": fk}})
+    if "UnicodeDecodeError" not in b["fault_kinds"]:
+        # the encoding probes (explicit / ad hoc / autodetected) must close their handles when a read fails to decode
+        for call in ("read-noautodetect", "read-str", "read-encoding"):
+            out.append({"name": "%s/clean/UnicodeDecodeError" % call, "params": {"call": call, "content": "clean", "fault_kind": "UnicodeDecodeError"}})
     return out
 
 
